@@ -1,4 +1,4 @@
-CONSTANTS NObj = 3 MaxStack = 2 MaxFields = 1 RescanRoots = TRUE WithStrOps = FALSE
+CONSTANTS NObj = 3 MaxStack = 2 MaxFields = 1 RescanRoots = TRUE WithStrOps = FALSE RescanScope = "all"
 SPECIFICATION FairSpec
 PROPERTY Reclaims
 CHECK_DEADLOCK FALSE
